@@ -445,6 +445,19 @@ func normalizeDomainpart(domainpart string) (string, error) {
 	// empty labels, so the result may end in a label separator again.
 	domainpart = strings.TrimRight(domainpart, ".")
 
+	// The profile validates the labels as they were given, but the mapping can
+	// turn a label that passes into one that does not (U+2135 ALEF SYMBOL, bidi
+	// class L, is mapped to U+05D0, class R, after the Bidi rule was checked):
+	// a canonical domainpart is accepted as it stands and is a fixed point of
+	// the mapping, so that the address we return parses to itself.
+	again, err := idna.Display.ToUnicode(domainpart)
+	if err != nil {
+		return domainpart, err
+	}
+	if again != domainpart {
+		return domainpart, errors.New("jid: domainpart is not stable under IDNA mapping")
+	}
+
 	if l := len(domainpart); l < 1 || l > 1023 {
 		return domainpart, errInvalidDomainLen
 	}
